@@ -58,6 +58,37 @@ SPECIAL_FORM_PREDS = ["isuniontype", "isoptionaltype", "isliteral", "isfinal", "
 SPELLING_FREE = list(ORIGIN_FAMILY) + ["issequencetype", "iscollectiontype"] + SPECIAL_FORM_PREDS
 UNION_SPELLING_FREE = SPECIAL_FORM_PREDS
 UNION_ORDER_FREE = SPECIAL_FORM_PREDS + ["isstdlibtype", "isbuiltintype"]
+# accessors asked in sequence on ==-equal annotations (member order / spelling): each answer must be the one the
+# object itself gets from a cold cache (compared with ==; args() as an ordered tuple) and, for args, typing.get_args
+ACCESSORS_HISTORY = ["args", "origin", "name", "qualname", "unwrap", "resolve_supertype"]
+
+
+def normalized_get_args(obj):
+    out = []
+    for a in tp.get_args(obj):
+        if type(a) is tp.TypeVar:
+            a = a.__bound__ or (tp.Union[a.__constraints__] if a.__constraints__ else tp.Any)
+        out.append(a)
+    return tuple(out)
+
+
+def expected_names(obj):
+    """documented name()/qualname() of a class-like annotation: -> (name or None, qualname or None)"""
+    if hasattr(obj, "__supertype__"):
+        return obj.__name__, None
+    if isinstance(obj, type) and not isinstance(obj, types.GenericAlias):
+        q = obj.__qualname__.replace("<locals>.", "")
+        return obj.__name__, (None if obj.__module__ == "typing" else q)
+    og = tp.get_origin(obj)
+    if type(obj) is types.GenericAlias and isinstance(og, type):
+        q = og.__qualname__ if og.__module__ == "builtins" else f"{og.__module__}.{og.__qualname__}"
+        return og.__name__, q
+    if type(obj).__module__ == "typing" and isinstance(og, type) and getattr(obj, "_name", None) \
+            and og not in (tp.Union,) and not isinstance(obj, tp.TypeVar):
+        return obj._name, "typing." + obj._name
+    if type(obj).__module__ == "typing" and isinstance(og, type) and getattr(obj, "_name", "x") is None:
+        return og.__name__, None          # subscripted user generic
+    return None, None
 
 
 def _issub(a, bases):
@@ -218,6 +249,16 @@ def check_object(desc, obj, kind):
                 o1, o2 = call2(fn, obj)
                 if o1 != ("ok", bool(e)) or not same(o1, o2):
                     fail(fn, "disagrees with the typing/dataclasses/inspect helper", o1, e)
+    # (1b) name()/qualname() of class-like annotations: the class's own __name__ at any nesting depth, both spellings
+    en, eq_ = expected_names(obj)
+    for fn, e in (("name", en), ("qualname", eq_)):
+        if e is None:
+            continue
+        o1, o2 = call2(fn, obj)
+        if not same(o1, o2):
+            fail(fn, "unstable across calls", o2, o1)
+        if o1 != ("ok", e):
+            fail(fn, "is not the documented name of the class", o1, e)
     # (2) special-form predicates: typing.get_origin / get_args
     if kinds == []:
         og = tp.get_origin(obj)
@@ -290,6 +331,9 @@ def check_spelling_pair(da, a, db, b, fns, tag):
         if not same(h, cb):
             fails.append(dict(site=fn, input=[da, db], symptom="answer depends on which spelling was asked first",
                               got=repr(h), expected=repr(cb), regions=[tag, "history"]))
+        elif fn == "args" and h != ("ok", normalized_get_args(b)):
+            fails.append(dict(site=fn, input=[da, db], symptom="disagrees with typing.get_args on the object itself",
+                              got=repr(h), expected=repr(normalized_get_args(b)), regions=[tag, "history"]))
     return fails
 
 
@@ -316,4 +360,7 @@ def check_history_pair(da, a, db, b, fns, tag):
         if not same(h, cb):
             fails.append(dict(site=fn, input=[da, db], symptom="answer depends on which spelling was asked first",
                               got=repr(h), expected=repr(cb), regions=[tag, "history"]))
+        elif fn == "args" and h != ("ok", normalized_get_args(b)):
+            fails.append(dict(site=fn, input=[da, db], symptom="disagrees with typing.get_args on the object itself",
+                              got=repr(h), expected=repr(normalized_get_args(b)), regions=[tag, "history"]))
     return fails
